@@ -76,6 +76,20 @@ func ViewWorkload(w *World, sc *Scenario) *WorkloadView {
 		_, v.InProgress = st.Annotations[util.InRolloutProgressingAnnotation]
 		fillPods(v, ownedPods(w, sc.ns(), st.UID))
 		return v
+	case "DaemonSet":
+		ds := &kruiseappsv1alpha1.DaemonSet{}
+		if !w.Get(ds, sc.ns(), AppName) {
+			return nil
+		}
+		v := &WorkloadView{Kind: "DaemonSet", Replicas: int(sc.Replicas), Image: ds.Spec.Template.Spec.Containers[0].Image,
+			UpdateRev: RevisionOf(ds.Name, &ds.Spec.Template), Generation: ds.Generation, ObservedGeneration: ds.Status.ObservedGeneration,
+			Annotations: ds.Annotations, Labels: ds.Labels, ByRevision: map[string]int{}, ReadyByRevision: map[string]int{}}
+		v.Exposure = exposureOf(sc, ds)
+		v.KnobText = fmt.Sprintf("partition=%d paused=%v", dsPartition(ds), dsPaused(ds))
+		_, v.Controlled = ds.Annotations[util.BatchReleaseControlAnnotation]
+		_, v.InProgress = ds.Annotations[util.InRolloutProgressingAnnotation]
+		fillPods(v, ownedPods(w, sc.ns(), ds.UID))
+		return v
 	case "Deployment":
 		d := &apps.Deployment{}
 		if !w.Get(d, sc.ns(), AppName) {
@@ -218,6 +232,15 @@ func exposureOf(sc *Scenario, obj interface{}) int {
 	case *apps.StatefulSet:
 		r := int(*o.Spec.Replicas)
 		e := r - stsPartition(o)
+		if e < 0 {
+			e = 0
+		}
+		return e
+	case *kruiseappsv1alpha1.DaemonSet:
+		if dsPaused(o) {
+			return 0
+		}
+		e := int(sc.Replicas) - dsPartition(o)
 		if e < 0 {
 			e = 0
 		}
